@@ -10,7 +10,7 @@ use vbase::gens::{self, DocParams};
 use vbase::refjson::{self, show_bytes, Kind, StrLit};
 use vbase::{ensure, fail};
 
-pub const RULE: &str = "cases are (string literal, placement) pairs: the literal is placed as root value, first array element before a sibling, object key, or object value, behind 0..64 spaces and before varying trailing bytes. Literals: all 1,114,112 code points as \\uXXXX escapes / surrogate pairs in both hex cases and as raw UTF-8 (exhaustive); each feature (nine escapes, \\u BMP, surrogate pair, escaped quote, escaped backslash, raw control, 2/3/4-byte characters, each malformed kind: bad escape letter, bad hex digit in each place, lone high/low surrogate, reversed pair, high+non-\\u, invalid UTF-8 of every kind, missing quote, trailing backslash) at every position 0..=130 of strings of many lengths; random well-formed and damaged literals; keys spelled with random escape spellings. Each case goes through the decoders {in-place Value, copying Value, String, &str, borrowed Cow, object key in both Value parsers, BTreeMap<String,_> key, struct field, get by key/index, LazyValue/OwnedLazyValue as_str from serde/get/iterators} in strict mode and {Value in-place, Value copying, String, struct fields decoded after the same literal was skipped as an unknown member, String after IgnoredAny} in lossy mode (Deserializer::utf8_lossy(); the `lossy` build runs the same through from_slice). The expected result is computed by the reference parser on the whole document: decoded text, borrowed iff no escape, rejected iff malformed; lossy: U+FFFD for invalid UTF-8 (as String::from_utf8_lossy) and unpaired surrogates, nothing else changed. Non-trivial = literal with an escape, a non-ASCII byte or length >= 32; distinct by (literal, placement).";
+pub const RULE: &str = "cases are (string literal, placement) pairs: the literal is placed as root value, first array element before a sibling, object key, or object value, behind 0..64 spaces and before varying trailing bytes. Literals: all 1,114,112 code points as \\uXXXX escapes / surrogate pairs in both hex cases and as raw UTF-8 (exhaustive); each feature (nine escapes, \\u BMP, surrogate pair, escaped quote, escaped backslash, raw control, 2/3/4-byte characters, each malformed kind: bad escape letter, bad hex digit in each place, lone high/low surrogate, reversed pair, high+non-\\u, invalid UTF-8 of every kind, missing quote, trailing backslash) at every position 0..=130 of strings of many lengths; random well-formed and damaged literals; keys spelled with random escape spellings. Each case goes through the decoders {in-place Value, copying Value, String, &str, borrowed Cow, object key in both Value parsers, BTreeMap<String,_> key, struct field, get by key/index, LazyValue/OwnedLazyValue as_str from serde/get/iterators; a LazyValue is read through a copy taken before its first read, itself, a copy taken afterwards and itself again, all of which must agree} in strict mode and {Value in-place, Value copying, String, struct fields decoded after the same literal was skipped as an unknown member, String after IgnoredAny} in lossy mode (Deserializer::utf8_lossy(); the `lossy` build runs the same through from_slice). The expected result is computed by the reference parser on the whole document: decoded text, borrowed iff no escape, rejected iff malformed; lossy: U+FFFD for invalid UTF-8 (as String::from_utf8_lossy) and unpaired surrogates, nothing else changed. Non-trivial = literal with an escape, a non-ASCII byte or length >= 32; distinct by (literal, placement).";
 pub const ASSUMPTIONS: &[&str] = &["refjson string decoder is correct (self-tested against serde_json)", "String::from_utf8_lossy defines lossy replacement of invalid UTF-8"];
 
 #[derive(Deserialize)]
